@@ -2208,40 +2208,50 @@ func (c *Ctx) pointerDescentRule(rule string) {
 // addressOfRule (C01): & only in front of addressable operands.
 func (c *Ctx) addressOfRule(rule string) {
 	r := c.R
-	r.Rule(rule, "ConverterNode.AssignExpr puts `&` in front of its argument only when the argument is addressable (a variable or a field selection): a getter result, a conversion or a String() call cannot have its address taken (`f(&src.Price())`, `f(&int64(src.N))` do not compile)")
-	fn := c.P.LookupMethod("/pkg/builder/model", "ConverterNode", "AssignExpr")
-	if fn == nil {
-		r.Undecided(rule, "anchor", "ConverterNode.AssignExpr not found")
-		return
+	r.Rule(rule, "ConverterNode.AssignExpr puts `&` in front of its argument whenever the converter takes a pointer and the argument is not one; the builder therefore creates such a converter node (the path that casts to the pointed-to type) only for an addressable argument – isAddressable: a root variable or a field selection, decided by the node's concrete type – never for a getter result, a conversion or a String() call (`f(&src.Price())` does not compile)")
+	n := 0
+	for _, s := range c.CallsTo(pBM + "NewConverterNode") {
+		if p := pkgOf(s.Fn); p == nil || p.Path() != mod+"/pkg/builder" {
+			continue
+		}
+		n++
+		// the argument is a φ of the direct cast and of the cast to the pointed-to type; the latter edge needs addressability
+		arg := s.Args()[0]
+		okAll := true
+		found := false
+		for _, cs := range c.Reach(s.Fn).Cases(arg) {
+			t := c.O.Of(cs.V)
+			if !t.Contains(func(x *core.Term) bool { return x.IsCallTo(fnDerefPtr) }) {
+				continue // direct cast: the argument already has the parameter's type
+			}
+			found = true
+			cond := cs.Cond
+			if cond == nil {
+				cond = c.ReachOf(s.Instr)
+			} else {
+				cond = core.And(cond, c.ReachOf(s.Instr))
+			}
+			addr := c.M(true, func(x *core.Term) bool { return x.Kind == "call" && strings.HasSuffix(x.Name, "isAddressable") })
+			if !cond.Implies(addr) {
+				okAll = false
+			}
+		}
+		r.Check(rule, sprintf("%s:NewConverterNode%d:address-of-addressable-only", FnKey(s.Fn), n), c.Pos(s.Pos()), found && okAll, "a converter node whose argument needs `&` is built without testing that the argument is addressable")
 	}
-	// the "&" is chosen under IsPtr tests only: no test of the argument node's kind anywhere in the method
-	amp := false
-	kindTested := false
-	for _, b := range fn.Blocks {
-		for _, in := range b.Instrs {
-			switch x := in.(type) {
-			case *ssa.Phi:
-				for _, e := range x.Edges {
-					if k, ok := e.(*ssa.Const); ok && k.Value != nil && k.Value.ExactString() == `"&"` {
-						amp = true
-					}
-				}
-			case *ssa.Store:
-				if k, ok := x.Val.(*ssa.Const); ok && k.Value != nil && k.Value.ExactString() == `"&"` {
-					amp = true
-				}
-			case *ssa.TypeAssert:
-				if strings.Contains(x.AssertedType.String(), "model.") {
-					kindTested = true // the argument node's concrete kind is examined
-				}
-			case ssa.CallInstruction:
-				if strings.Contains(core.CalleeName(x.Common()), "ddressable") {
-					kindTested = true
+	r.Floor(rule, "NewConverterNode sites in the builder", n, 1)
+	if fn := c.MustFunc(rule, "/pkg/builder", "isAddressable"); fn != nil {
+		// decided by the node's concrete type: root, scalar or field node
+		kinds := map[string]bool{}
+		for _, b := range fn.Blocks {
+			for _, in := range b.Instrs {
+				if ta, ok := in.(*ssa.TypeAssert); ok {
+					kinds[core.ShortType(ta.AssertedType)] = true
 				}
 			}
 		}
+		okK := kinds["model.RootNode"] && kinds["model.StructFieldNode"] && !kinds["model.StructMethodNode"] && !kinds["model.TypecastEntry"] && !kinds["model.StringerEntry"] && !kinds["model.ConverterNode"]
+		r.Check(rule, FnKey(fn)+":kinds", c.Pos(fn.Pos()), okK, sprintf("isAddressable must accept root and field nodes and no call-like node, tests %v", sortedKeys(kinds)))
 	}
-	r.Check(rule, FnKey(fn)+":address-of-addressable-only", c.Pos(fn.Pos()), !amp || kindTested, "`&` is chosen from the pointer-ness of the types alone, whatever kind of expression the argument is")
 }
 
 // foreignTypeRule (C01): a type of a package the setup file does not import is not rendered as if it were local.
